@@ -9,6 +9,7 @@ computation onto one, so that the rules - written against that one spelling - gi
   P2  no else after exit   `if c: ...; return/raise/break/continue  else: REST`  ->  `if c: ...exit`  followed by REST
   P3  effect loops         an expression statement that is a comprehension evaluated for its side effects becomes a for loop
   P3b accumulation loops  `L = []; for x in xs: L.append(e)` becomes `L = [e for x in xs]`
+  P3d literal loops        a loop over a short literal table is unrolled; setattr / getattr with a constant name become attribute access
   P3c local functions     a nested `def f(x): return e` becomes `f = lambda x: e`
   P4  new helpers          a function / method that the reference snapshot does not know (a freshly extracted private helper) is
                            inlined at its call sites (arguments bound once, locals renamed) and removed
@@ -124,9 +125,85 @@ def _local_def_to_lambda(st):
     return ast.copy_location(ast.Assign(targets=[ast.Name(id=st.name, ctx=ast.Store())], value=lam), st)
 
 
+def _literal(e):
+    if isinstance(e, ast.Constant):
+        return True
+    if isinstance(e, (ast.Tuple, ast.List)):
+        return all(_literal(x) or isinstance(x, ast.Name) for x in e.elts)
+    return False
+
+
+def _unroll_literal_loop(st):
+    """`for k, f in (("a", float), ("b", int)): body`  ->  body[k:="a", f:=float]; body[k:="b", f:=int]
+    (a loop over a short literal table of constants / names, without break / continue / else, whose targets are not re-bound)."""
+    if not (isinstance(st, ast.For) and not st.orelse and isinstance(st.iter, (ast.Tuple, ast.List)) and 0 < len(st.iter.elts) <= 40):
+        return None
+    if not all(_literal(e) or isinstance(e, ast.Name) for e in st.iter.elts):
+        return None
+    # a table of data (it carries at least one constant per row); a plain list of names (classes to visit ...) stays a loop
+    if not all(any(isinstance(x, ast.Constant) for x in ast.walk(e)) for e in st.iter.elts):
+        return None
+    tnames = [x.id for x in ast.walk(st.target) if isinstance(x, ast.Name)]
+    for n in ast.walk(ast.Module(body=st.body, type_ignores=[])):
+        if isinstance(n, (ast.Break, ast.Continue)):
+            return None
+        if isinstance(n, ast.Name) and n.id in tnames and isinstance(n.ctx, (ast.Store, ast.Del)):
+            return None
+    out = []
+    for e in st.iter.elts:
+        if isinstance(st.target, ast.Name):
+            sub = {st.target.id: e}
+        elif isinstance(st.target, (ast.Tuple, ast.List)) and isinstance(e, (ast.Tuple, ast.List)) and len(e.elts) == len(st.target.elts) \
+                and all(isinstance(t, ast.Name) for t in st.target.elts):
+            sub = {t.id: v for t, v in zip(st.target.elts, e.elts)}
+        else:
+            return None
+
+        class Sub(ast.NodeTransformer):
+            def visit_Name(self, x):
+                return copy.deepcopy(sub[x.id]) if x.id in sub and isinstance(x.ctx, ast.Load) else x
+        for b in st.body:
+            out.append(Sub().visit(copy.deepcopy(b)))
+    return out
+
+
+class _AttrCalls(ast.NodeTransformer):
+    """setattr(o, "name", v) as a statement -> o.name = v ;  getattr(o, "name") -> o.name   (constant, identifier-like names)."""
+    def visit_Expr(self, st):
+        self.generic_visit(st)
+        v = st.value
+        if isinstance(v, ast.Call) and isinstance(v.func, ast.Name) and v.func.id == "setattr" and len(v.args) == 3 and not v.keywords \
+                and isinstance(v.args[1], ast.Constant) and isinstance(v.args[1].value, str) and v.args[1].value.isidentifier():
+            return ast.copy_location(ast.Assign(targets=[ast.Attribute(value=v.args[0], attr=v.args[1].value, ctx=ast.Store())],
+                                                value=v.args[2]), st)
+        return st
+
+    def visit_Call(self, n):
+        self.generic_visit(n)
+        if isinstance(n.func, ast.Name) and n.func.id == "getattr" and len(n.args) == 2 and not n.keywords \
+                and isinstance(n.args[1], ast.Constant) and isinstance(n.args[1].value, str) and n.args[1].value.isidentifier():
+            return ast.copy_location(ast.Attribute(value=n.args[0], attr=n.args[1].value, ctx=ast.Load()), n)
+        return n
+
+
 def _restructure(body, nested=False):
     out = []
-    for st in body:
+    for k_, st in enumerate(body):
+        # a loop over a name bound, in the statement just before, to a literal table: iterate the table itself
+        if isinstance(st, ast.For) and isinstance(st.iter, ast.Name) and out and isinstance(out[-1], ast.Assign) \
+                and len(out[-1].targets) == 1 and isinstance(out[-1].targets[0], ast.Name) and out[-1].targets[0].id == st.iter.id \
+                and isinstance(out[-1].value, (ast.Tuple, ast.List)) \
+                and not any(isinstance(x, ast.Name) and x.id == st.iter.id for later in body[k_ + 1:] for x in ast.walk(later)) \
+                and not any(isinstance(x, ast.Name) and x.id == st.iter.id for b_ in st.body for x in ast.walk(b_)):
+            trial = copy.copy(st)
+            trial.iter = out[-1].value
+            if _unroll_literal_loop(trial) is not None:
+                out.pop()
+                st = trial
+        unrolled = _unroll_literal_loop(st)
+        if unrolled is not None:
+            out.extend(_restructure(unrolled, nested))
+            continue
         loop = _effect_comp_to_loop(st) or _extend_comp_to_loop(st)
         if loop is not None:
             st = loop
@@ -280,6 +357,14 @@ class _Inliner:
 
     def match(self, call, selfname, clsname):
         f = call.func
+        # a method called on a local that holds a fresh instance of the class (`chain = cls(...)` in a classmethod)
+        if isinstance(f, ast.Attribute) and isinstance(f.value, ast.Name) and f.value.id in getattr(self, "instances", ()) \
+                and clsname is not None:
+            for k in self.mro(clsname):
+                if ("m", k, f.attr) in self.helpers and not self.helpers[("m", k, f.attr)][2]:
+                    self.receiver = f.value.id
+                    return self.helpers[("m", k, f.attr)]
+        self.receiver = None
         if isinstance(f, ast.Attribute) and isinstance(f.value, ast.Name) and f.value.id == selfname and clsname is not None:
             # a helper inherited from a base class (possibly defined in another file)
             for k in self.mro(clsname)[1:]:
@@ -307,7 +392,7 @@ class _Inliner:
         sub = {}
         pro = []
         if is_method and not is_static and params:
-            sub[params[0]] = ast.Name(id=selfname, ctx=ast.Load())
+            sub[params[0]] = ast.Name(id=getattr(self, "receiver", None) or selfname, ctx=ast.Load())
             params = params[1:]
         given = {}
         if len(call.args) > len(params) or any(isinstance(a, ast.Starred) for a in call.args) or any(kw.arg is None for kw in call.keywords):
@@ -377,14 +462,22 @@ class _Inliner:
         self.n += 1
         return pro + body, ret
 
-    def process(self, body, selfname, clsname):
+    def process(self, body, selfname, clsname, top=True):
+        if top:
+            # locals bound to a fresh instance of the class being defined
+            self.instances = set()
+            for n in ast.walk(ast.Module(body=body, type_ignores=[])):
+                if isinstance(n, ast.Assign) and len(n.targets) == 1 and isinstance(n.targets[0], ast.Name) \
+                        and isinstance(n.value, ast.Call) and isinstance(n.value.func, ast.Name) \
+                        and n.value.func.id in ("cls", clsname):
+                    self.instances.add(n.targets[0].id)
         out = []
         for st in body:
             if isinstance(st, (ast.FunctionDef, ast.AsyncFunctionDef, ast.ClassDef)):
                 out.append(st)
                 continue
             for name, b in list(_blocks(st)):
-                nb = self.process(b, selfname, clsname)
+                nb = self.process(b, selfname, clsname, False)
                 if name == "handler":
                     for h in st.handlers:
                         if h.body is b:
@@ -421,17 +514,17 @@ class _Inliner:
                         if conv is None:
                             self.n -= 1
                             continue
-                        out.extend(self.process(stmts + conv[0], selfname, clsname))
+                        out.extend(self.process(stmts + conv[0], selfname, clsname, False))
                         done = True
                         break
                     if isinstance(st, ast.Expr) and st.value is call:
-                        out.extend(self.process(stmts, selfname, clsname))
+                        out.extend(self.process(stmts, selfname, clsname, False))
                         if not (isinstance(ret, ast.Constant) and ret.value is None):
                             out.append(ast.copy_location(ast.Expr(value=ret), st))
                         done = True
                     else:
                         self._replace(st, call, ret)
-                        out.extend(self.process(stmts, selfname, clsname))
+                        out.extend(self.process(stmts, selfname, clsname, False))
                     break
                 if done:
                     break
@@ -645,6 +738,22 @@ def accumulate_to_comprehension(tree):
     return n[0]
 
 
+def _after(fn, st, node):
+    """node occurs textually after statement st (inlined code shares line numbers, so positions in a pre-order walk are used)."""
+    order = {id(x): i for i, x in enumerate(ast.walk(fn))}
+    # ast.walk is breadth-first; use a depth-first order instead
+    seq = []
+
+    def dfs(n):
+        seq.append(n)
+        for c in ast.iter_child_nodes(n):
+            dfs(c)
+    dfs(fn)
+    pos = {id(x): i for i, x in enumerate(seq)}
+    last_of_st = max(pos[id(x)] for x in ast.walk(st))
+    return pos.get(id(node), -1) > last_of_st
+
+
 def _propagate_inlined_aliases(tree):
     """After P4 an argument that the helper updated in place appears as  `p__hK = a` ... `p__hK += d` ... `a = p__hK`.
     `p__hK` names the same object as `a` throughout (it is never re-bound, and `a` is only re-bound from it), so it is
@@ -666,8 +775,27 @@ def _propagate_inlined_aliases(tree):
                         if isinstance(x, ast.Name):
                             plain.setdefault(x.id, []).append(st)
             for name, sts in plain.items():
-                if "__h" not in name or len(sts) != 1:
+                if "__h" not in name:
                     continue
+                if len(sts) != 1:
+                    # the alias is re-bound later (a parameter the helper converts in place of the original): still the same
+                    # variable as its source when the source is dead from the alias point on
+                    first = min(sts, key=lambda s_: (getattr(s_, "lineno", 0), getattr(s_, "col_offset", 0)))
+                    if not (isinstance(first, ast.Assign) and len(first.targets) == 1 and isinstance(first.targets[0], ast.Name)
+                            and first.targets[0].id == name and isinstance(first.value, ast.Name)):
+                        continue
+                    src0 = first.value.id
+                    body_flat = list(ast.walk(fn))
+                    later_src = [x for x in body_flat if isinstance(x, ast.Name) and x.id == src0 and x is not first.value
+                                 and _after(fn, first, x)]
+                    if later_src:
+                        continue
+                    for x in ast.walk(fn):
+                        if isinstance(x, ast.Name) and x.id == name:
+                            x.id = src0
+                    n += 1
+                    changed = True
+                    break
                 st = sts[0]
                 if not (isinstance(st, ast.Assign) and len(st.targets) == 1 and isinstance(st.targets[0], ast.Name)
                         and isinstance(st.value, ast.Name)):
@@ -703,12 +831,14 @@ def _propagate_inlined_aliases(tree):
 
 
 # ------------------------------------------------------------------------------------------------ P4b
-def rename_private_functions(tree, known):
+def rename_private_functions(tree, known, params=None):
     """A private function / method the reference does not know, opposite a private reference name that has disappeared from the
     same scope, with the same number of parameters, is that function renamed: the reference name is restored (definition and
     every `self.name(...)` / `name(...)` reference).  Only unambiguous one-to-one cases are mapped."""
     if known is None:
         return 0
+    known_params.clear()
+    known_params.update(params or {})
     n = 0
     scopes = [(None, tree.body)] + [(st.name, st.body) for st in tree.body if isinstance(st, ast.ClassDef)]
     for cname, body in scopes:
@@ -733,7 +863,9 @@ def rename_private_functions(tree, known):
                 pn = known_params.get(prefix + m)
                 if pn is not None and pn == [a.arg for a in have[e].args.args]:
                     sc += 0.5
-                elif pn is not None and len(pn) != len(have[e].args.args):
+                elif pn is not None and len(pn) == len(have[e].args.args):
+                    sc += 0.25
+                elif pn is not None:
                     sc -= 0.5
                 scored.append((sc, e))
             scored.sort(reverse=True)
@@ -765,12 +897,13 @@ def canonicalise(tree, known_functions=None):
     return tree
 
 
-def canonicalise_program(trees, known_by_rel):
+def canonicalise_program(trees, known_by_rel, params_by_rel=None):
     """P1-P4 over every parsed module; P4 sees the whole program (helpers inherited across files)."""
     for rel, tree in trees.items():
         _Polarity().visit(tree)
         tree.body = _restructure(tree.body)
-        rename_private_functions(tree, known_by_rel.get(rel))
+        _AttrCalls().visit(tree)
+        rename_private_functions(tree, known_by_rel.get(rel), (params_by_rel or {}).get(rel))
     n_inl = inline_new_helpers_program(trees, known_by_rel)
     for rel, tree in trees.items():
         if n_inl:
